@@ -97,21 +97,24 @@ def run(tier):
     thorough = tier == "thorough"
     proof = proof_status(PROP, thorough)
     oc = Outcome(PROP)
-    oc.rule = ("shipped class diagrams (TestClassDiagram, ProtocolStack) and projects derived from them by 0-4 SQL-level edits (rename class, rename package, remove class from the diagram), C++ and C# back ends, "
+    oc.rule = ("shipped class diagrams (TestClassDiagram, ProtocolStack) and projects derived from them by 0-4 SQL-level edits (rename class, rename package, remove class from the diagram, move a class out of its package, re-type an attribute to a leaf type of - mostly - another package), C++ and C# back ends, "
                "namespace folders on/off, with/without export macro: reported file list == Uml.fileList of the real parsed element list; wrapper lines == Uml.nsBegin/nsEnd; C++: declaration/definition pairing per concrete class, "
                "overrides of realised pure-virtual interfaces, g++ -fsyntax-only per file; non-trivial = every case")
     oc.assumptions = TRUSTED
     r = rng(PROP)
     runner = genlib.Runner()
     reqs, pend = [], []
-    n = 80 if thorough else 16
+    n = 90 if thorough else 24
     with scratch() as base:
         for i in range(n):
             diagram = r.choice(["TestClassDiagram", "TestClassDiagram", "ProtocolStack"])
             proj = os.path.join(base, "p%d.vpp" % i)
-            ops = umlmut.mutate(r, genlib.BLOB, proj, diagram, 0 if i < 2 else r.randint(1, 4))
-            backend = r.choice(["uml", "uml", "umlcs"])
-            folders = r.random() < 0.5
+            single = 2 <= i < 12      # a few derived models with exactly one re-typed attribute (the compile oracle always applies)
+            if single:
+                diagram = "TestClassDiagram"
+            ops = umlmut.mutate(r, genlib.BLOB, proj, diagram, 0 if i < 2 else (1 if single else r.randint(1, 4)), only=("retype-reference-to-enum" if i < 4 else "retype-attribute") if single else None)
+            backend = "uml" if single else r.choice(["uml", "uml", "umlcs"])
+            folders = (i % 4 != 1) if single else r.random() < 0.5
             model = dict(kind="uml", backend=backend, project=proj, diagram=diagram, ns_folders=folders, dclspc=r.choice(["", "MY_API"]))
             info = dict(model=dict(model, project="blob.xml + " + repr(ops)), edits=ops)
             out = os.path.join(base, "o%d" % i)
